@@ -1218,6 +1218,26 @@ class Interp:
     # -- calls ------------------------------------------------------------
     def _consume(self, st, node, term, site_node):
         gens = [a[1] for a in self.r.type_of(node, st.fi) if a[0] == 'gen']
+        # the value at hand says more than the (flow-insensitive) type
+        if term[0] == 'gen':
+            gens = sorted(set(gens) | {term[1]})
+        elif term[0] == 'call':
+            if term[1] in ('list', 'tuple', 'sorted', 'set', 'frozenset'):
+                gens = []       # already materialised
+            else:
+                g2 = set()
+                known = True
+                for q in term[1].split('|'):
+                    if q in self.m.funcs:
+                        for a in self.r.ret_types.get(q, ()):
+                            if a[0] == 'gen':
+                                g2.add(a[1])
+                    else:
+                        known = False
+                if known:
+                    gens = sorted(g2)
+        elif term[0] == 'obj':
+            gens = []
         if gens or term[0] == 'gen':
             self.emit(st, 'consume', site_node, iterable=term,
                       gens=tuple(sorted(gens)))
@@ -1448,18 +1468,19 @@ class Interp:
         mutating = base in ('append', 'extend', 'add', 'pop', 'popleft',
                             'popitem', 'clear', 'update', 'remove',
                             'discard', 'insert')
-        if excs or mutating:
-            self._opaque_call(st, e, [], name, args, kw, recv, raises=excs,
-                              names=(name,), mutates=mutating)
-            if mutating and recv is not None and recv[0] == 'a':
-                self._bump(st, {recv[2]})
         full = tuple([recv] + list(args)) if recv is not None \
             else tuple(args)
         site = None if base in ('lower', 'strip', 'startswith', 'endswith',
                                 'encode', 'decode', 'join', 'get', 'keys',
                                 'values', 'items', 'upper') \
             else self.site(e)
-        return [(st, ('call', '.' + base, full, site))]
+        res = ('call', '.' + base, full, site)
+        if excs or mutating:
+            self._opaque_call(st, e, [], name, args, kw, recv, raises=excs,
+                              names=(name,), mutates=mutating, result=res)
+            if mutating and recv is not None and recv[0] == 'a':
+                self._bump(st, {recv[2]})
+        return [(st, res)]
 
     def _construct_h2(self, e, st, target, args, kw):
         cq = target.name
